@@ -10,12 +10,14 @@ tree_check.RULES['C15'] = ('every tree model class with from_value, arguments by
 def run(ctx: common.Ctx):
     tree_check.setup(ctx, 'C15')
     doc_checks.run_c15(ctx)
+    doc_checks.run_c15_expressions(ctx)
     doc_checks.run_c15_comment_layouts(ctx)
     tree_check.correspondence(ctx, 'C15')
 
 
 def search(ctx: common.Ctx):
     doc_checks.run_c15(ctx)
+    doc_checks.run_c15_expressions(ctx)
     doc_checks.run_c15_comment_layouts(ctx)
 
 
